@@ -26,6 +26,12 @@ def check(ctx):
     for rep in range(6 if ctx.thorough else 2):
         for i in (10, 17, 18, 19, 21):
             lines.append("Ser A %d %d big" % (i, rng.randrange(1, 2 ** 31)))
+    # vectors of scalars wider than a byte whose elements take 64 KiB and more (vector<int32_t>, vector<double>, a tuple holding vector<uint16_t>)
+    for rep in range(4 if ctx.thorough else 1):
+        for i in (11, 13, 20):
+            lines.append("Ser A %d %d big" % (i, rng.randrange(1, 2 ** 31)))
+        for i in (11, 13):
+            lines.append("Ser B %d %d big" % (i, rng.randrange(1, 2 ** 31)))
     script = []
     for i, ln in enumerate(lines):
         if i % 100 == 0: script.append("R")
